@@ -273,6 +273,14 @@ def run(spec):
                         for r in objs:
                             if int(r.state_record_list[i]) == D.R_WORKING:
                                 res.add("inserted", "C18.inserted_step_has_WORKING." + kind, "%s: %s %s is WORKING at inserted step %d" % (what, kind, r.ID, i), i)
+                    # the inserted entries of the two sides of the allocation history tell the same story
+                    for kind, objs, attr in (("worker", ix.workers, "allocated_worker_id_record"), ("facility", ix.facs, "allocated_facility_id_record")):
+                        for r in objs:
+                            mine = sorted(r.assigned_task_id_record[i] or [])
+                            theirs = sorted(t.ID for t in ix.tasks if r.ID in (getattr(t, attr)[i] or []))
+                            if mine != theirs:
+                                res.add("inserted", "C18.inserted_step_allocation_logs_disagree.%s%s" % (kind, ".step0" if i == 0 else ""),
+                                        "%s: at inserted step %d %s %s is logged on tasks %s, the tasks that log it are %s" % (what, i, kind, r.ID, mine, theirs), i)
                     for t in ix.tasks:
                         prev = t.remaining_work_amount_record_list[i - 1] if i > 0 else t.default_work_amount * (1.0 - t.default_progress)
                         if t.remaining_work_amount_record_list[i] != prev:
